@@ -35,7 +35,16 @@ def cli_chains(ctx):
             cfg = f"cfg_{length}_{bottom}.toml"
             with open(os.path.join(d, cfg), "w") as fh:
                 fh.write(f'std = "c{length}_{bottom}_1"\n')
-            for fname, want_parse_error in ((good, False), (bad, True)):
+            # the same sources under the other file extension selene collects (`*.luau`): the library decides, not the file name
+            for fname in (good, bad):
+                alt = fname[:-4] + "_as.luau"
+                if not os.path.exists(os.path.join(d, alt)):
+                    with open(os.path.join(d, alt), "w") as fh:
+                        fh.write(open(os.path.join(d, fname)).read())
+            cases = [(good, False), (bad, True)]
+            if length in (1, 9):
+                cases += [(good[:-4] + "_as.luau", False), (bad[:-4] + "_as.luau", True)]
+            for fname, want_parse_error in cases:
                 rc, out, err = cli.run_selene(["--config", cfg, "--display-style", "json2", "--num-threads", "1", fname], d)
                 diags, summary, badl = cli.parse_json_lines(out)
                 got = any(x.get("code") == "parse_error" for x in diags)
